@@ -255,10 +255,53 @@ def _iff(T, got, expect):
     return ~expect if T.symbolic and not isinstance(expect, (bool, np.bool_)) else (not bool(expect))
 
 
+# ------------------------------------------------------------------------------- scenario: the built-in variable scaler end to end
+def cases_scaler(tier):
+    for which in ("s", "so", "o"):
+        for lk, uk in (("fin", "fin"), ("-inf", "fin"), ("fin", "+inf")):
+            yield "%s/%s/%s" % (which, lk, uk), {"which": which, "lk": lk, "uk": uk}
+
+
+def scn_scaler(T, case):
+    """The quantifier of C13 includes transforms: with the real VariableScaler (scales only, offsets only, both) the reported
+    differences of a result computed in optimizer coordinates are value - bound IN THE USER DOMAIN (C11 proves the same against
+    the untransformed run; here the reference is the formula of the statement)."""
+    from contracts import C11
+
+    PFX = "C13"
+    sh = C11._shadow(T, [C11.MV, M_INFO, "ropt.results._utils"])
+    n = 2
+    s, o = C11._so(T, n, case["which"], given=True)
+    sc = C11._scaler(T, s, o)
+    CI = T.under_contract(sh, M_INFO, "ConstraintInfo") if T.symbolic else T.func(M_INFO, "ConstraintInfo")
+    if T.symbolic:
+        T.under_contract(sh, M_INFO, "ConstraintInfo.transform_from_optimizer")
+        T.under_contract(sh, M_INFO, "ConstraintInfo.create")
+    x = T.real("x", (n,))
+    kinds = lambda k: np.array([k, "fin"], dtype=object)  # noqa: E731
+    lb, ub = T.real("lb", (n,), kinds=kinds(case["lk"])), T.real("ub", (n,), kinds=kinds(case["uk"]))
+    A = T.real("A", (1, n))
+    T.assume(T.any([~T.same(A[0, i], 0.0 * A[0, i]) if T.symbolic else A[0, i] != 0 for i in range(n)]))
+    llb, lub = T.real("llb", (1,), kinds=np.array([case["lk"]], dtype=object)), T.real("lub", (1,), kinds=np.array([case["uk"]], dtype=object))
+    Ah, lh_, uh_ = sc.linear_constraints_to_optimizer(A, llb, lub)
+    cfg_opt = types.SimpleNamespace(variables=types.SimpleNamespace(lower_bounds=sc.to_optimizer(lb), upper_bounds=sc.to_optimizer(ub)),
+                                    linear_constraints=types.SimpleNamespace(coefficients=Ah, lower_bounds=lh_, upper_bounds=uh_), nonlinear_constraints=None)
+    tr = types.SimpleNamespace(variables=sc, objectives=None, nonlinear_constraints=None)
+    back = CI.create(cfg_opt, sc.to_optimizer(x), None).transform_from_optimizer(tr)
+    eq = (lambda a, b: T.same(a, b)) if T.symbolic else (lambda a, b: T.close(a, b, 1e-9))
+    zero = 0.0 * x[0]
+    v = T.total([A[0, i] * x[i] for i in range(n)])
+    T.prove(PFX + ".scaler.bound_differences_are_value_minus_bound_in_the_user_domain", T.all([eq(back.bound_lower[i], x[i] - lb[i]) & eq(back.bound_upper[i], x[i] - ub[i]) for i in range(n)]))
+    T.prove(PFX + ".scaler.bound_violation_is_max_of_lower_minus_value_value_minus_upper_zero", T.all([eq(back.bound_violation[i], T.np.maximum(T.np.maximum(lb[i] - x[i], x[i] - ub[i]), zero)) for i in range(n)]))
+    T.prove(PFX + ".scaler.linear_differences_are_value_minus_bound_in_the_user_domain", eq(back.linear_lower[0], v - llb[0]) & eq(back.linear_upper[0], v - lub[0]))
+    T.prove(PFX + ".scaler.linear_violation_is_max_of_lower_minus_value_value_minus_upper_zero", eq(back.linear_violation[0], T.np.maximum(T.np.maximum(llb[0] - v, v - lub[0]), zero)))
+
+
 SCENARIOS = [
     Scenario("create", scn_create, cases_create, {"quick": 6, "thorough": 60}),
     Scenario("transform_from_optimizer", scn_transform, cases_transform, {"quick": 10, "thorough": 100}),
     Scenario("violates_constraint", scn_violates, cases_violates, {"quick": 10, "thorough": 100}),
+    Scenario("variable_scaler_end_to_end", scn_scaler, cases_scaler, {"quick": 10, "thorough": 100}),
 ]
 
 MANIFEST = {
